@@ -3,6 +3,8 @@ import FeatModel.Model.Solver.Krylov
 import FeatModel.Model.Solver.RatVec
 import FeatModel.Lemmas.C07Control
 import FeatModel.Lemmas.C07Krylov
+import FeatModel.Lemmas.C07Krylov2
+import FeatModel.Model.Solver.BiCGStab
 import FeatModel.Lemmas.C07Vec
 /-!
 # C07 — iterative solvers report their status truthfully
@@ -17,8 +19,12 @@ from is the norm of the TRUE filtered residual `F(b − A x)` of the returned it
 filter mask, preconditioner function (linear or not, failing or not), configuration and start vector; the solver
 loops terminate with a terminal status (fuel suffices).
 
-Not proved here (observed by the correspondence run only): the same residual identity for PCR and BiCGStab; finite
-termination / convergence of the Krylov iterations on SPD systems; floating-point drift.
+Part 3: the same for PMR, PCR (needs the additional linearity law `LawfulLin`, because `q_k = F A p_k` is updated by
+recurrence) and BiCGStab (including its half-step exits).  `C07.success_without_defect_calc_witness` exhibits the point
+excluded by the hypothesis `calcDef = true` (open finding c07-edge:F3).
+
+Not proved here (observed by the correspondence run only): finite termination / convergence of the Krylov iterations on
+SPD systems; floating-point drift.
 -/
 open FeatModel.Solver
 
@@ -321,14 +327,114 @@ theorem C07.pcg_apply_sound (S : Sys V α) (hl : Lawful S) (c : Config α) (b : 
   · exact Or.inl hA
   · exact Or.inr fun hna => ⟨hB.1, hB.2 hna⟩
 
+/-- the driver's instance also satisfies the linearity law PCR needs, for every size -/
+theorem C07.ratSys_lawfulLin {n : Nat} (A : RMat n) (mask : Vector Bool n) (pre : Option (RMat n × Nat)) :
+    LawfulLin (ratSys A mask pre) :=
+  FeatModel.Solver.ratSys_lawfulLin A mask pre
+
+/-- PCR `correct()`: recurrence residual = true filtered residual in every iteration, for every preconditioner
+    function; same soundness statement as PCG (`SolveSound`, spelled out in `C07.pcg_correct_sound`) -/
+theorem C07.pcr_correct_sound (S : Sys V α) (hl : LawfulLin S) (c : Config α) (x0 b : V) (res : Result V α)
+    (h : pcrCorrect S c x0 b = some res) :
+    SolveSound c x0 (S.nrm (resid S b x0)) (S.nrm (resid S b res.x)) res :=
+  solveSound_of S c b x0 _ res (pcrIntern_spec S hl c b x0 _ res rfl h)
+
+/-- PCR `apply()` on a filtered right-hand side -/
+theorem C07.pcr_apply_sound (S : Sys V α) (hl : LawfulLin S) (c : Config α) (b : V) (hb : S.Fd b = b)
+    (res : Result V α) (h : pcrApply S c b = some res) :
+    SolveSound c S.ops.zero (S.nrm b) (S.nrm (resid S b res.x)) res := by
+  have hr : b = resid S b S.ops.zero := by rw [hl.toLawful.resid_zero, hb]
+  exact solveSound_of S c b _ _ res (pcrIntern_spec S hl c b S.ops.zero b res hr h)
+
+/-- PCR `success` after at least one iteration ⇒ the true filtered residual meets the tolerances -/
+theorem C07.pcr_success_true_residual (S : Sys V α) (hl : LawfulLin S) (c : Config α) (x0 b : V)
+    (res : Result V α) (h : pcrCorrect S c x0 b = some res) (hs : res.status = .success)
+    (hit : 0 < res.st.numIter) (hc : calcDef c res.st.numIter = true) :
+    S.nrm (resid S b res.x) ≤ c.tolAbs ∧
+      (S.nrm (resid S b res.x) ≤ c.tolRel * S.nrm (resid S b x0) ∨ S.nrm (resid S b res.x) ≤ c.tolAbsLow) := by
+  have := (C07.pcr_correct_sound S hl c x0 b res h).2.2.2 (by rw [hs]; simp)
+  have h2 := this.2 hit
+  rw [← h2.1 hc]
+  exact (h2.2.1 hs).1
+
+/-- PMR `correct()` / `apply()`: recurrence residual = true filtered residual in every iteration, for every
+    preconditioner function (statement `SolveSound`, spelled out in `C07.pcg_correct_sound`) -/
+theorem C07.pmr_correct_sound (S : Sys V α) (hl : Lawful S) (c : Config α) (x0 b : V) (res : Result V α)
+    (h : pmrCorrect S c x0 b = some res) :
+    SolveSound c x0 (S.nrm (resid S b x0)) (S.nrm (resid S b res.x)) res :=
+  solveSound_of S c b x0 _ res (pmrIntern_spec S hl c b x0 _ res rfl h)
+
+theorem C07.pmr_apply_sound (S : Sys V α) (hl : Lawful S) (c : Config α) (b : V) (hb : S.Fd b = b)
+    (res : Result V α) (h : pmrApply S c b = some res) :
+    SolveSound c S.ops.zero (S.nrm b) (S.nrm (resid S b res.x)) res := by
+  have hr : b = resid S b S.ops.zero := by rw [hl.resid_zero, hb]
+  exact solveSound_of S c b _ _ res (pmrIntern_spec S hl c b S.ops.zero b res hr h)
+
+/-- PMR `success` after at least one iteration ⇒ the true filtered residual meets the tolerances -/
+theorem C07.pmr_success_true_residual (S : Sys V α) (hl : Lawful S) (c : Config α) (x0 b : V)
+    (res : Result V α) (h : pmrCorrect S c x0 b = some res) (hs : res.status = .success)
+    (hit : 0 < res.st.numIter) (hc : calcDef c res.st.numIter = true) :
+    S.nrm (resid S b res.x) ≤ c.tolAbs ∧
+      (S.nrm (resid S b res.x) ≤ c.tolRel * S.nrm (resid S b x0) ∨ S.nrm (resid S b res.x) ≤ c.tolAbsLow) := by
+  have := (C07.pmr_correct_sound S hl c x0 b res h).2.2.2 (by rw [hs]; simp)
+  have h2 := this.2 hit
+  rw [← h2.1 hc]
+  exact (h2.2.1 hs).1
+
+/-- BiCGStab `correct()` (left-preconditioned), for every preconditioner function and whatever control state `st0`
+    the previous solve left: terminal status; unless the preconditioner failed, the initial defect is `‖F(b − A x0)‖`,
+    a run without iterations is a `success` of the initial check on the untouched start vector, and a run with
+    iterations ended either in the half-step test — the stored defect is the true residual norm of the returned
+    iterate and meets the tolerances (`success`) / exceeds a divergence limit (`diverged`) — or in `_set_new_defect`
+    applied to the true residual norm of the returned iterate (`FinalStep`, read off by `finalStep_facts`) -/
+theorem C07.bicg_correct_sound (S : Sys V α) (hl : Lawful S) (c : Config α) (st0 : State α) (x0 b : V)
+    (res : Result V α) (h : bicgCorrect S c st0 x0 b = some res) :
+    res.status ≠ .undefined ∧ res.status ≠ .progress ∧
+      (res.status ≠ .aborted → res.st.defInit = S.nrm (resid S b x0) ∧
+        ((res.st.numIter = 0 ∧ res.x = x0 ∧ res.status = .success ∧
+            (S.nrm (resid S b x0) < c.tolAbsLow ∨ S.nrm (resid S b x0) ≤ c.eps2)) ∨
+         (0 < res.st.numIter ∧
+            ((res.st.defCur = S.nrm (resid S b res.x) ∧
+                ((res.status = .success ∧ Converged c res.st.defInit res.st.defCur ∧
+                    ¬ Diverged c res.st.defInit res.st.defCur) ∨
+                 (res.status = .diverged ∧ Diverged c res.st.defInit res.st.defCur))) ∨
+             FinalStep S c b res)))) :=
+  bicgIntern_spec S hl c st0 b x0 _ res rfl h
+
+/-- BiCGStab `success` after at least one iteration ⇒ the true filtered residual of the returned iterate meets the
+    tolerances (half-step exits included; for full steps whenever the defect was computed) -/
+theorem C07.bicg_success_true_residual (S : Sys V α) (hl : Lawful S) (c : Config α) (st0 : State α) (x0 b : V)
+    (res : Result V α) (h : bicgCorrect S c st0 x0 b = some res) (hs : res.status = .success)
+    (hit : 0 < res.st.numIter) (hc : calcDef c res.st.numIter = true) :
+    S.nrm (resid S b res.x) ≤ c.tolAbs ∧
+      (S.nrm (resid S b res.x) ≤ c.tolRel * S.nrm (resid S b x0) ∨ S.nrm (resid S b res.x) ≤ c.tolAbsLow) := by
+  obtain ⟨hd0, hcase⟩ := (C07.bicg_correct_sound S hl c st0 x0 b res h).2.2 (by rw [hs]; simp)
+  rcases hcase with ⟨hz, _⟩ | ⟨_, hhalf | hfin⟩
+  · omega
+  · obtain ⟨hcur, hst⟩ := hhalf
+    rcases hst with ⟨_, hconv, _⟩ | ⟨hdv, _⟩
+    · rw [← hcur, ← hd0]; exact hconv
+    · rw [hs] at hdv; cases hdv
+  · have hf := finalStep_facts S c b res hfin
+    rw [← hf.1 hc, ← hd0]
+    exact (hf.2.1 hs).1
+
+/-- BiCGStab `apply()` = `correct()` from the zero vector on a filtered right-hand side -/
+theorem C07.bicg_apply_eq_correct_zero (S : Sys V α) (hl : Lawful S) (c : Config α) (st0 : State α) (b : V)
+    (hb : S.Fd b = b) : bicgApply S c st0 b = bicgCorrect S c st0 S.ops.zero b := by
+  unfold bicgApply bicgCorrect
+  rw [hl.resid_zero, hb]
+
 end solvers
 
-/-- the hypotheses of the solver theorems are satisfiable by a non-trivial system: a 2×2 SPD matrix, a unit filter
-    on the second dof and a (non-symmetric) preconditioner; the run succeeds after one iteration -/
-example :
-    (pcgCorrect (ratSys (n := 2) #v[#v[2, 1], #v[1, 3]] #v[false, true] (some (#v[#v[1, 1], #v[0, 1]], 0)))
-        { tolRel := 1 / 10, tolAbs := 1000, tolAbsLow := 0, divRel := 1000, divAbs := 1000, stagRate := 9 / 10,
-          eps2 := epsSqQ, minIter := 0, maxIter := 5, minStag := 0, skipDefCalc := true, plotIter := false,
-          plotInterval := 1 } #v[0, 0] #v[1, 2]).map (fun r => (r.status, r.st.numIter, r.x.toList))
-      = some (.success, 1, [1 / 2, 0]) := by
+/-- the point excluded by `calcDef = true` (open finding c07-edge:F3), by evaluation: Richardson on the 1×1 system
+    `x = 1` with damping 3 (the error doubles per step), `witnessCfg`: `min_iter = max_iter = 2`, `tol_rel = 1` and the default
+    `skip_defect_calc`: the defect is never recomputed (`calcDef = false`), the run returns `success` after 2 iterations
+    with stored defect 1, but the true residual norm of the returned iterate `x = −3` is 4 > tol_rel·def_init = 1 -/
+theorem C07.success_without_defect_calc_witness :
+    (richApply (ratSys (n := 1) #v[#v[1]] #v[false] none) witnessCfg 3 #v[1]).map
+      (fun r => (r.status, r.st.numIter, r.x.toList, r.st.defCur,
+        vnorm (maskF #v[false] (vaxpy #v[1] (matVec #v[#v[1]] r.x) (-1))), calcDef witnessCfg r.st.numIter))
+      = some (.success, 2, [-3], 1, 4, false) ∧
+    witnessCfg.tolRel = 1 ∧ witnessCfg.minIter = 2 ∧ witnessCfg.maxIter = 2 ∧ witnessCfg.skipDefCalc = true := by
   decide +kernel
